@@ -11,50 +11,53 @@ import (
 	"github.com/wrgl/wrgl/pkg/objects"
 )
 
+// SeekCommonAncestor returns a commit that is an ancestor of (or equal to) every
+// given commit. If one of the given commits is itself an ancestor of all the
+// others, that commit is returned. An error is returned only if the commits
+// share no ancestor.
 func SeekCommonAncestor(db objects.Store, commits ...[]byte) (baseCommit []byte, err error) {
 	n := len(commits)
-	qs := make([]*CommitsQueue, n)
-	bases := make([][]byte, n)
+	// ancestors[i] holds every ancestor of commits[i], commits[i] included
+	ancestors := make([]map[string]struct{}, n)
+	// ancestors of the first commit in the order the history walk yields them
+	var firstWalk [][]byte
 	for i, sum := range commits {
-		qs[i], err = NewCommitsQueue(db, [][]byte{sum})
+		q, err := NewCommitsQueue(db, [][]byte{sum})
 		if err != nil {
-			return
+			return nil, err
 		}
-		bases[i] = sum
-	}
-	for {
-		for i := len(bases) - 1; i >= 0; i-- {
-			for j := len(bases) - 1; j >= 0; j-- {
-				if i == j {
-					continue
-				}
-				if qs[j].Seen(bases[i]) {
-					// remove j element
-					copy(bases[j:], bases[j+1:])
-					bases = bases[:len(bases)-1]
-					copy(qs[j:], qs[j+1:])
-					qs = qs[:len(qs)-1]
-					if i > j {
-						i--
-					}
-				}
-			}
-		}
-		if len(bases) == 1 {
-			break
-		}
-		eofs := 0
-		for i, q := range qs {
-			bases[i], _, err = q.PopInsertParents()
+		ancestors[i] = map[string]struct{}{}
+		for {
+			anc, _, err := q.PopInsertParents()
 			if errors.Is(err, io.EOF) {
-				eofs++
-			} else if err != nil {
+				break
+			}
+			if err != nil {
 				return nil, err
 			}
-		}
-		if eofs == len(qs) {
-			return nil, fmt.Errorf("common ancestor commit not found")
+			ancestors[i][string(anc)] = struct{}{}
+			if i == 0 {
+				firstWalk = append(firstWalk, anc)
+			}
 		}
 	}
-	return bases[0], nil
+	isCommon := func(sum []byte) bool {
+		for _, m := range ancestors {
+			if _, ok := m[string(sum)]; !ok {
+				return false
+			}
+		}
+		return true
+	}
+	for _, sum := range commits {
+		if isCommon(sum) {
+			return sum, nil
+		}
+	}
+	for _, sum := range firstWalk {
+		if isCommon(sum) {
+			return sum, nil
+		}
+	}
+	return nil, fmt.Errorf("common ancestor commit not found")
 }
